@@ -409,18 +409,18 @@ def run(F, R, tier):
     # ---- (e) VM jump arms ---------------------------------------------------------------------------------------------------------------
     arms = vm_arms(F, R)
     if arms:
-        for op in ("JumpIfFalse", "JumpIfFalseNoPop"):
-            a = arms.get(op)
-            if not R.anchor("VM arm " + op, a):
-                continue
-            ifs = [x for x in H.walk(a["body"]) if x.get("k") == "if"]
-            ok = len(ifs) == 1 and H.render(ifs[0]["c"]) == "condition.is_falsey()" and "e" not in ifs[0] and \
-                "self.current_frame().ip = pos" in H.render(ifs[0]["t"]) and H.diverges(ifs[0]["t"])
-            src = [x for x in H.walk(a["body"]) if x.get("k") == "let" and x.get("pat", {}).get("name") == "condition"]
-            want = "self.pop(line)?" if op == "JumpIfFalse" else "self.top(0, line)?"
-            ok = ok and len(src) == 1 and H.render(src[0]["init"]).startswith(want[:-1])
-            R.ob("vm-conditional-jump", "%s: %s the condition, jumps to the operand iff it is falsey" % (op, "pops" if op == "JumpIfFalse" else "keeps"), ok,
-                 H.render(ifs[0])[:120] if ifs else "no test", "src/vm/interpreter.rs:%s" % a["line"])
+        # conditional jumps: decided by C06's routing rule (path enumeration of the arm with helpers inlined, for both
+        # answers of is_falsey); evaluated here as well because "exactly one branch" depends on it
+        from . import c06 as _c06
+        from .lib import core as _core
+        R6 = _core.Report("C06")
+        try:
+            _c06.run(F, R6, tier)
+            for o in R6.obls:
+                if o.rule == "truthiness-routing" and o.key in ("JumpIfFalse", "JumpIfFalseNoPop"):
+                    R.ob("vm-conditional-jump", "%s: %s the condition, jumps to the operand iff it is falsey" % (o.key, "pops" if o.key == "JumpIfFalse" else "keeps"), o.ok, o.detail, o.loc)
+        except Exception as e:  # fail closed
+            R.ob("vm-conditional-jump", "routing rule evaluated", False, "C06's routing rule could not be evaluated: %s" % e)
         a = arms.get("Jump")
         if R.anchor("VM arm Jump", a):
             t = H.render(a["body"])
